@@ -253,6 +253,7 @@ const (
 	AProposeOnForged      // template: a hidden block X (old parent, real old certificate) that nobody votes for, a FORGED certificate for X (repeated signer / the actor's signatures only / another block's signatures), and the proposal Y = (parent X, forged certificate)
 	AHoldNext             // template: the next proposal the actor would make is created but withheld
 	ARelease              // template: a withheld proposal is sent (late) to the replicas selected by B
+	AProposeOldAgg        // template (aggregate QCs): a proposal justified by an OLD, genuine aggregate QC: certificate = that aggregate's high QC, parent = its block
 	aCount
 )
 
@@ -277,7 +278,7 @@ func (a *Actor) Act(A, B, C int) {
 	}
 	if cl.Cfg.ActorAuto {
 		switch mod(A, aCount) {
-		case AProposeSkip, AProposeStaleQC, AEquivocate, AProposeWeird, AProposeOnForged:
+		case AProposeSkip, AProposeStaleQC, AEquivocate, AProposeWeird, AProposeOnForged, AProposeOldAgg:
 			a.armed = &Step{K: KActor, A: mod(A, aCount), B: B, C: C}
 			return
 		}
@@ -605,6 +606,30 @@ func (a *Actor) Act(A, B, C int) {
 		for _, to := range a.targets(0) {
 			a.send(me, to, hotstuff.ProposeMsg{ID: me.ID, Block: blk})
 		}
+	case AProposeOldAgg:
+		if len(a.AggQCs) == 0 {
+			return
+		}
+		old := a.AggQCs[mod(B, len(a.AggQCs))]
+		var best hotstuff.QuorumCert
+		found := false
+		for _, c := range old.QCs() {
+			if b := a.blockOf(c.BlockHash()); b != nil && b.View() == c.View() && (!found || c.View() > best.View()) {
+				best, found = c, true
+			}
+		}
+		if !found {
+			return
+		}
+		v := a.leaderViewNear(me, C)
+		if best.View() >= v {
+			v = best.View() + 1
+		}
+		blk := hotstuff.NewBlock(best.BlockHash(), best, a.batch(), v, me.ID)
+		cl.register(blk)
+		for _, to := range a.targets(0) {
+			a.send(me, to, hotstuff.ProposeMsg{ID: me.ID, Block: blk, AggregateQC: &old})
+		}
 	case AToggleFetch:
 		a.ServeFetch = !a.ServeFetch
 	}
@@ -733,6 +758,24 @@ func (a *Actor) proposeMaybeDeviating(me *Stack, qc hotstuff.QuorumCert, v hotst
 			}
 			parent = cl.AllBlk[mod(dev.B, len(cl.AllBlk))].Hash()
 			qc = a.QCs[mod(dev.C, len(a.QCs))]
+		case AProposeOldAgg:
+			if len(a.AggQCs) == 0 {
+				break
+			}
+			old := a.AggQCs[mod(dev.B, len(a.AggQCs))]
+			// the highest certificate attested inside that aggregate
+			var best hotstuff.QuorumCert
+			found := false
+			for _, c := range old.QCs() {
+				if b := a.blockOf(c.BlockHash()); b != nil && b.View() == c.View() && (!found || c.View() > best.View()) {
+					best, found = c, true
+				}
+			}
+			if !found {
+				break
+			}
+			qc, parent = best, best.BlockHash()
+			agg = &old
 		case AProposeOnForged:
 			if cb == nil || v < 3 {
 				break
